@@ -214,6 +214,10 @@ pub fn judge_linear(prop: &str, isa: Isa, acc: &mut Acc, c: &LinCase, cfg: &EmuC
 pub fn run(ctx: &Ctx, acc: &mut Acc) {
     let prop = ctx.prop.as_str();
     let isas = isas_for(prop);
+    // C10 judges growth: the shape invariant (C09's business) must not end its runs early.  The
+    // value comparison (C06-C08) and the calling-convention monitor (C13) run without the heap
+    // monitor: a heap event would end the run before the wrong value or the ABI event is seen.
+    let cfg = EmuConfig { enforce_shape: prop != "C10", heap_check_every: if matches!(prop, "C09" | "C10") { 1 } else { 0 }, ..EmuConfig::default() };
     // directed, exhaustive part first: one statement in every placement class
     match prop {
         "C06" => super::matrix::run(&Ctx { prop: ctx.prop.clone(), tier: ctx.tier, seed: ctx.seed, shard: ctx.shard, nshards: ctx.nshards, budget: ctx.budget / 2, start: ctx.start }, acc, 0),
@@ -242,7 +246,7 @@ pub fn run(ctx: &Ctx, acc: &mut Acc) {
                             for isa in &isas {
                                 acc.evaluations += 1;
                                 let c = LinCase { linear: &st.linear, args: &args, origin: format!("directed print with {l} live variables kinds={kinds} args={k}"), src: Some(&src) };
-                                if judge_linear(prop, *isa, acc, &c, &EmuConfig::default()) {
+                                if judge_linear(prop, *isa, acc, &c, &cfg) {
                                     acc.nontrivial(crate::rng::hash_str(&src) ^ *isa as u64);
                                     acc.count(&format!("directed_live_{l}"));
                                 }
@@ -255,9 +259,8 @@ pub fn run(ctx: &Ctx, acc: &mut Acc) {
         "C10" => super::loops::run(&Ctx { prop: ctx.prop.clone(), tier: ctx.tier, seed: ctx.seed, shard: ctx.shard, nshards: ctx.nshards, budget: ctx.budget * 2 / 3, start: ctx.start }, acc, &isas),
         _ => {}
     }
-    // C10 judges growth: the shape invariant (C09's business) must not end its runs early
-    let cfg = EmuConfig { enforce_shape: prop != "C10", ..EmuConfig::default() };
     super::corpus::backend(ctx, acc, &cfg);
+    super::directed::run(ctx, acc, &cfg, 6);
     let max_cases: u64 = if ctx.quick() { 3_000 } else { 10_000_000 };
     let mut i = 0u64;
     while ctx.time_left() && i < max_cases {
